@@ -3,6 +3,7 @@ CONSTANTS
   Imports <- ChainImports
   Targets <- ChainTargets
   Variants <- V2
+  BodyOf <- Body2
   MaxOps = 6
   MaxTorn = 1
   TransitiveKey = FALSE
